@@ -52,12 +52,27 @@ theorem all_null_dict_is_null (np : Str → Bool) (ps : List (Code × Code)) :
     · simp [dictNull, keptPair, h, ih]
     · simp [dictNull, keptPair, h]
 
-/-- the documented misuse — a non-null Dict beside other items in Values — is reported, and a
-    Dict alone in Values is not -/
+/-- the documented misuse — a non-null Dict beside another item that renders something in
+    Values — is reported -/
 theorem dict_must_be_alone (np : Str → Bool) (g : GInfo) (hg : g.name = b!"values") (ps : List (Code × Code)) (x : Code)
-    (hd : isNull np (.dict ps) = false) :
+    (hd : isNull np (.dict ps) = false) (hx : isNull np x = false) :
     misuse np (.group g [.dict ps, x]) = true := by
-  simp [misuse, misuseItems, hg, hd, isDict]
+  simp [misuse, misuseItems, countKept, hg, hd, hx, isDict]
+
+/-- … and an item that renders nothing (nil, Null(), an empty list: C13) is not "another item":
+    the Dict beside it is treated exactly like the Dict alone (D15 repair), on either side -/
+theorem dict_beside_void_is_alone (np : Str → Bool) (g : GInfo) (ps : List (Code × Code)) (x : Code)
+    (hx : isNull np x = true) :
+    misuse np (.group g [.dict ps, x]) = misuse np (.group g [.dict ps]) ∧
+    misuse np (.group g [x, .dict ps]) = misuse np (.group g [.dict ps]) := by
+  by_cases hd : isNull np (.dict ps) = true <;>
+    simp [misuse, misuseItems, countKept, allNull, hd, hx]
+
+/-- a Dict alone in Values is never the misuse by itself -/
+theorem dict_alone_ok (np : Str → Bool) (g : GInfo) (ps : List (Code × Code)) :
+    misuse np (.group g [.dict ps]) = (!(g.name == b!"types" && isNull np (.dict ps)) && !isNull np (.dict ps) && misusePairs np ps) := by
+  by_cases hd : isNull np (.dict ps) = true <;> by_cases ht : g.name = b!"types" <;>
+    simp [misuse, misuseItems, countKept, allNull, hd, ht, isDict]
 
 /-- the stateful renderer writes the same body (T-R): under any later naming -/
 theorem stateful_eq_pure (cfg : Cfg) (f : FileS) (hg : Refine.Good cfg f) (ps : List (Code × Code)) (f3 : FileS)
